@@ -271,7 +271,21 @@ def run_upload_case(case, tmpdir):
     try:
         with scaled_adjuster(utils, mn, mx, mp):
             with TransferManager(client, cfg, executor_cls=NonThreadedExecutor) as m:
-                m.upload(src, 'b', 'k', extra_args=dict(extra)).result()
+                subs = None
+                if case.get('provided'):
+                    # the caller supplies the size (bytes from the call-time position to EOF) through a
+                    # subscriber, as the CLI does with --expected-size: nothing else may change
+                    class Provide:
+                        def on_queued(self_, future, **kw):
+                            future.meta.provide_transfer_size(size)
+
+                        def on_progress(self_, future, bytes_transferred, **kw):
+                            pass
+
+                        def on_done(self_, future, **kw):
+                            pass
+                    subs = [Provide()]
+                m.upload(src, 'b', 'k', extra_args=dict(extra), subscribers=subs).result()
     except Exception as e:     # noqa
         obs['exc'] = type(e).__name__ + ': ' + str(e)[:160]
     obs['src_ops'] = src_ops
@@ -434,6 +448,8 @@ def upload_cases(ctx, with_retries):
                     limits = [(1, 1000, 1000), (2, 9, 4), (1, 5, 3)][n % 3]
                     case = {'size': size, 'chunk': c, 'thr': t, 'limits': list(limits), 'alg': n % 4 == 0,
                             'salt': n % 5}
+                    if kind in ('path', 'seek', 'seekpos', 'duckseekpos') and n % 3 == 1:
+                        case['provided'] = True
                     if kind == 'path':
                         case['kind'] = 'path'
                     elif kind == 'path-symlink':
@@ -839,6 +855,24 @@ def sched_oracle(spec, r):
                          copy=t['kind'] == 'copy')
 
 
+def faulted_mons():
+    from harness.sched import monitors as M
+    return [M.m_terminates, M.m_success_means_all_ok, M.m_multipart_discipline]
+
+
+def check_sched_faults(ctx):
+    """'Whenever an upload or copy future reports SUCCESS ...': multipart uploads / copies on 3 request
+    threads with one request failing (before / after its effect) under random and PCT schedules --
+    a success must still mean every part is in the object (and nothing was aborted)."""
+    from harness.props import sysrun
+    kinds = [dict(kind='upload', src='path', size=12), dict(kind='upload', src='seekable', size=11),
+             dict(kind='upload', src='nonseekable', size=10), dict(kind='copy', size=12)]
+    cfg = dict(sysrun.CFG_SMALL, max_request_concurrency=3, multipart_chunksize=4, multipart_threshold=4)
+    specs = sysrun.specs_faults(ctx, kinds, seeds=2 if ctx.thorough() else 1, cfg=cfg, tag='c01-faults')
+    specs = [sp for sp in specs if sp.get('s3_fault') or sp.get('read_fault')]
+    sysrun.sub_runs(ctx, specs, faulted_mons())
+
+
 def check_sched(ctx):
     specs = sched_specs(ctx)
     lines, impls, owners = [], [], []
@@ -1024,6 +1058,7 @@ def run(ctx):
         check_legacy(ctx, tmpdir)
         check_final_send(ctx)
         check_sched(ctx)
+        check_sched_faults(ctx)
         if ctx.broken is not None and not ctx.violations:
             ctx.report('broken:' + ctx.broken.what, ctx.broken.what,
                        {'kind': 'theorem', 'theorem_or_correspondence': ctx.broken.what, 'log': ctx.broken.log},
@@ -1035,6 +1070,9 @@ def run(ctx):
 def replay(ctx, data):
     case = data.get('case') or {}
     fam = data.get('family')
+    if isinstance(case, dict) and 'transfers' in case and 'cfg' in case and fam is None:
+        from harness.props import sysrun
+        return sysrun.replay_spec(ctx, data, faulted_mons())
     tmpdir = tempfile.mkdtemp(prefix='verif-c01-')
     try:
         if fam == 'upload':
